@@ -158,6 +158,10 @@ impl World {
                         dt
                     }
                 };
+                // production-configuration scripts: really wait (the real clock cannot be set)
+                if cmd.get("sleep").and_then(|v| v.as_bool()).unwrap_or(false) {
+                    std::thread::sleep(std::time::Duration::from_millis(real));
+                }
                 let go = |i: &mut Inst| {
                     i.now = i.now.saturating_add(real);
                     i.snow += dt;
